@@ -182,8 +182,11 @@ def _map_vars(
     for role, tgt in branches:
         if not is_atomic(tgt):
             tgt = _map_vars(tgt, varmap)
-        elif role != '/' and tgt in varmap:
-            tgt = varmap[tgt]
+        elif role != '/' and isinstance(tgt, str):
+            # a reference may carry an alignment (e.g., v1~e.5)
+            ref, tilde, alignment = tgt.partition('~')
+            if ref in varmap:
+                tgt = varmap[ref] + tilde + alignment
         newbranches.append((role, tgt))
 
     return (varmap[var], newbranches)
